@@ -399,6 +399,7 @@ func (i *interpreter) resetPerPath() {
 	i.noFork = false
 	i.monoClock = nil
 	i.condSignals = 0
+	i.jsonSyms = nil
 }
 
 // runInit executes the package initialiser of sp only (imported packages' initialisers are skipped
